@@ -2,7 +2,7 @@
 from hypothesis import strategies as st
 from vlib.core import Sub, Outcome
 from vlib import gen
-from vlib.interp import (Interp, BuilderInvalid, per_char, same_settings, tail_settings, change_points, describe)
+from vlib.interp import (Interp, BuilderInvalid, resolve_idx, per_char, same_settings, tail_settings, change_points, describe)
 from ansi_string import AnsiString, AnsiStr
 
 RULE = ('values = generated programs (constructor + up to 5 public operations, nested operands, both classes, any '
@@ -64,7 +64,9 @@ def eval_slice(case):
         return o
     t = v.base_str
     per = per_char(v)
-    a, b, n = case['a'], case['b'], case['n']
+    a, b, n = resolve_idx(case['a'], v), resolve_idx(case['b'], v), resolve_idx(case['n'], v)
+    if n is None:
+        n = 0
     sl = check_slice(o, v, t, per, a, b)
     # appended formatted text keeps only its own style
     r = sl + AnsiString('Z', 'italic')
@@ -157,7 +159,11 @@ def eval_allpairs(case):
             if per[i] != per[i - 1]:
                 pts.update([i - 1, i, i + 1])
         pts.update(range(0, L, 7))
-        pts = sorted(x for x in pts if 0 <= x <= L + 2)[:40]
+        pts = sorted(x for x in pts if 0 <= x <= L + 2)
+        if len(pts) > (40 if L <= 100 else 9):
+            # keep the ends and an evenly spread sample (very long values: every slice costs ~10 ms to compare)
+            k = 40 if L <= 100 else 9
+            pts = sorted(set([pts[0], pts[-1]] + [pts[i * (len(pts) - 1) // (k - 1)] for i in range(k)]))
         rng = [None] + pts + [x - L for x in pts if x - L < 0] + [-L - 2]
         o.label('long-value')
     n = 0
@@ -175,7 +181,7 @@ def eval_allpairs(case):
 
 
 def strat_slice():
-    return st.fixed_dictionaries({'p': gen.progs(CFG), 'a': gen.idx(), 'b': gen.idx(), 'n': st.integers(-13, 13),
+    return st.fixed_dictionaries({'p': gen.progs(CFG), 'a': gen.ridx(), 'b': gen.ridx(), 'n': gen.weighted((4, st.integers(-13, 13)), (1, gen.ridx())),
                                   'step': st.sampled_from([None, None, 1, 2, -1, 0, 3])})
 
 
